@@ -555,6 +555,101 @@ package document
 //@   assigns nothing
 //@   safety all
 
+// The same for a document exported with its session evidence: whenever UnmarshalVerifiableDoc accepts what
+// (*DocumentEx).ToCbor produced, the imported document holds the raw bytes of the exported one in every file.
+//@ func roundTripLemmaEx
+//@   props C15
+//@   requires docEx != nil
+//@   proves "inner-blob-is-the-documents-own-export": result1 == nil ==> docExDocument(envPayload(blob)) === cborEnv(magicRawDoc(), 1, hashF(5, docPayload(docEx.Document)), docPayload(docEx.Document))
+//@   proves "inner-payload-is-the-record-of-the-raw-bytes": result1 == nil ==> envOK(docExDocument(envPayload(blob))) && envPayload(docExDocument(envPayload(blob))) === docPayload(docEx.Document)
+//@   proves "record-is-well-formed": rawDocOK(docPayload(docEx.Document))
+//@   proves "record-field-0": rawDocField(docPayload(docEx.Document), 0) === docRaw(docEx.Document, 0)
+//@   proves "same-field-0-in-the-decoded-payload": result1 == nil ==> rawDocField(envPayload(docExDocument(envPayload(blob))), 0) === rawDocField(docPayload(docEx.Document), 0)
+//@   proves "file-0-is-the-decoded-field": result1 == nil ==> result0 != nil && docRaw(result0, 0) === rawDocField(envPayload(docExDocument(envPayload(blob))), 0)
+//@   proves "file-0-is-the-record-field": result1 == nil ==> docRaw(result0, 0) === rawDocField(docPayload(docEx.Document), 0)
+//@   proves "file-0-round-trip": result1 == nil ==> result0 != nil && docRaw(result0, 0) === docRaw(docEx.Document, 0)
+//@   proves "record-field-1": rawDocField(docPayload(docEx.Document), 1) === docRaw(docEx.Document, 1)
+//@   proves "same-field-1-in-the-decoded-payload": result1 == nil ==> rawDocField(envPayload(docExDocument(envPayload(blob))), 1) === rawDocField(docPayload(docEx.Document), 1)
+//@   proves "file-1-is-the-decoded-field": result1 == nil ==> result0 != nil && docRaw(result0, 1) === rawDocField(envPayload(docExDocument(envPayload(blob))), 1)
+//@   proves "file-1-is-the-record-field": result1 == nil ==> docRaw(result0, 1) === rawDocField(docPayload(docEx.Document), 1)
+//@   proves "file-1-round-trip": result1 == nil ==> result0 != nil && docRaw(result0, 1) === docRaw(docEx.Document, 1)
+//@   proves "record-field-2": rawDocField(docPayload(docEx.Document), 2) === docRaw(docEx.Document, 2)
+//@   proves "same-field-2-in-the-decoded-payload": result1 == nil ==> rawDocField(envPayload(docExDocument(envPayload(blob))), 2) === rawDocField(docPayload(docEx.Document), 2)
+//@   proves "file-2-is-the-decoded-field": result1 == nil ==> result0 != nil && docRaw(result0, 2) === rawDocField(envPayload(docExDocument(envPayload(blob))), 2)
+//@   proves "file-2-is-the-record-field": result1 == nil ==> docRaw(result0, 2) === rawDocField(docPayload(docEx.Document), 2)
+//@   proves "file-2-round-trip": result1 == nil ==> result0 != nil && docRaw(result0, 2) === docRaw(docEx.Document, 2)
+//@   proves "record-field-3": rawDocField(docPayload(docEx.Document), 3) === docRaw(docEx.Document, 3)
+//@   proves "same-field-3-in-the-decoded-payload": result1 == nil ==> rawDocField(envPayload(docExDocument(envPayload(blob))), 3) === rawDocField(docPayload(docEx.Document), 3)
+//@   proves "file-3-is-the-decoded-field": result1 == nil ==> result0 != nil && docRaw(result0, 3) === rawDocField(envPayload(docExDocument(envPayload(blob))), 3)
+//@   proves "file-3-is-the-record-field": result1 == nil ==> docRaw(result0, 3) === rawDocField(docPayload(docEx.Document), 3)
+//@   proves "file-3-round-trip": result1 == nil ==> result0 != nil && docRaw(result0, 3) === docRaw(docEx.Document, 3)
+//@   proves "record-field-4": rawDocField(docPayload(docEx.Document), 4) === docRaw(docEx.Document, 4)
+//@   proves "same-field-4-in-the-decoded-payload": result1 == nil ==> rawDocField(envPayload(docExDocument(envPayload(blob))), 4) === rawDocField(docPayload(docEx.Document), 4)
+//@   proves "file-4-is-the-decoded-field": result1 == nil ==> result0 != nil && docRaw(result0, 4) === rawDocField(envPayload(docExDocument(envPayload(blob))), 4)
+//@   proves "file-4-is-the-record-field": result1 == nil ==> docRaw(result0, 4) === rawDocField(docPayload(docEx.Document), 4)
+//@   proves "file-4-round-trip": result1 == nil ==> result0 != nil && docRaw(result0, 4) === docRaw(docEx.Document, 4)
+//@   proves "record-field-5": rawDocField(docPayload(docEx.Document), 5) === docRaw(docEx.Document, 5)
+//@   proves "same-field-5-in-the-decoded-payload": result1 == nil ==> rawDocField(envPayload(docExDocument(envPayload(blob))), 5) === rawDocField(docPayload(docEx.Document), 5)
+//@   proves "file-5-is-the-decoded-field": result1 == nil ==> result0 != nil && docRaw(result0, 5) === rawDocField(envPayload(docExDocument(envPayload(blob))), 5)
+//@   proves "file-5-is-the-record-field": result1 == nil ==> docRaw(result0, 5) === rawDocField(docPayload(docEx.Document), 5)
+//@   proves "file-5-round-trip": result1 == nil ==> result0 != nil && docRaw(result0, 5) === docRaw(docEx.Document, 5)
+//@   proves "record-field-6": rawDocField(docPayload(docEx.Document), 6) === docRaw(docEx.Document, 6)
+//@   proves "same-field-6-in-the-decoded-payload": result1 == nil ==> rawDocField(envPayload(docExDocument(envPayload(blob))), 6) === rawDocField(docPayload(docEx.Document), 6)
+//@   proves "file-6-is-the-decoded-field": result1 == nil ==> result0 != nil && docRaw(result0, 6) === rawDocField(envPayload(docExDocument(envPayload(blob))), 6)
+//@   proves "file-6-is-the-record-field": result1 == nil ==> docRaw(result0, 6) === rawDocField(docPayload(docEx.Document), 6)
+//@   proves "file-6-round-trip": result1 == nil ==> result0 != nil && docRaw(result0, 6) === docRaw(docEx.Document, 6)
+//@   proves "record-field-7": rawDocField(docPayload(docEx.Document), 7) === docRaw(docEx.Document, 7)
+//@   proves "same-field-7-in-the-decoded-payload": result1 == nil ==> rawDocField(envPayload(docExDocument(envPayload(blob))), 7) === rawDocField(docPayload(docEx.Document), 7)
+//@   proves "file-7-is-the-decoded-field": result1 == nil ==> result0 != nil && docRaw(result0, 7) === rawDocField(envPayload(docExDocument(envPayload(blob))), 7)
+//@   proves "file-7-is-the-record-field": result1 == nil ==> docRaw(result0, 7) === rawDocField(docPayload(docEx.Document), 7)
+//@   proves "file-7-round-trip": result1 == nil ==> result0 != nil && docRaw(result0, 7) === docRaw(docEx.Document, 7)
+//@   proves "record-field-8": rawDocField(docPayload(docEx.Document), 8) === docRaw(docEx.Document, 8)
+//@   proves "same-field-8-in-the-decoded-payload": result1 == nil ==> rawDocField(envPayload(docExDocument(envPayload(blob))), 8) === rawDocField(docPayload(docEx.Document), 8)
+//@   proves "file-8-is-the-decoded-field": result1 == nil ==> result0 != nil && docRaw(result0, 8) === rawDocField(envPayload(docExDocument(envPayload(blob))), 8)
+//@   proves "file-8-is-the-record-field": result1 == nil ==> docRaw(result0, 8) === rawDocField(docPayload(docEx.Document), 8)
+//@   proves "file-8-round-trip": result1 == nil ==> result0 != nil && docRaw(result0, 8) === docRaw(docEx.Document, 8)
+//@   proves "record-field-9": rawDocField(docPayload(docEx.Document), 9) === docRaw(docEx.Document, 9)
+//@   proves "same-field-9-in-the-decoded-payload": result1 == nil ==> rawDocField(envPayload(docExDocument(envPayload(blob))), 9) === rawDocField(docPayload(docEx.Document), 9)
+//@   proves "file-9-is-the-decoded-field": result1 == nil ==> result0 != nil && docRaw(result0, 9) === rawDocField(envPayload(docExDocument(envPayload(blob))), 9)
+//@   proves "file-9-is-the-record-field": result1 == nil ==> docRaw(result0, 9) === rawDocField(docPayload(docEx.Document), 9)
+//@   proves "file-9-round-trip": result1 == nil ==> result0 != nil && docRaw(result0, 9) === docRaw(docEx.Document, 9)
+//@   proves "record-field-10": rawDocField(docPayload(docEx.Document), 10) === docRaw(docEx.Document, 10)
+//@   proves "same-field-10-in-the-decoded-payload": result1 == nil ==> rawDocField(envPayload(docExDocument(envPayload(blob))), 10) === rawDocField(docPayload(docEx.Document), 10)
+//@   proves "file-10-is-the-decoded-field": result1 == nil ==> result0 != nil && docRaw(result0, 10) === rawDocField(envPayload(docExDocument(envPayload(blob))), 10)
+//@   proves "file-10-is-the-record-field": result1 == nil ==> docRaw(result0, 10) === rawDocField(docPayload(docEx.Document), 10)
+//@   proves "file-10-round-trip": result1 == nil ==> result0 != nil && docRaw(result0, 10) === docRaw(docEx.Document, 10)
+//@   proves "record-field-11": rawDocField(docPayload(docEx.Document), 11) === docRaw(docEx.Document, 11)
+//@   proves "same-field-11-in-the-decoded-payload": result1 == nil ==> rawDocField(envPayload(docExDocument(envPayload(blob))), 11) === rawDocField(docPayload(docEx.Document), 11)
+//@   proves "file-11-is-the-decoded-field": result1 == nil ==> result0 != nil && docRaw(result0, 11) === rawDocField(envPayload(docExDocument(envPayload(blob))), 11)
+//@   proves "file-11-is-the-record-field": result1 == nil ==> docRaw(result0, 11) === rawDocField(docPayload(docEx.Document), 11)
+//@   proves "file-11-round-trip": result1 == nil ==> result0 != nil && docRaw(result0, 11) === docRaw(docEx.Document, 11)
+//@   proves "record-field-12": rawDocField(docPayload(docEx.Document), 12) === docRaw(docEx.Document, 12)
+//@   proves "same-field-12-in-the-decoded-payload": result1 == nil ==> rawDocField(envPayload(docExDocument(envPayload(blob))), 12) === rawDocField(docPayload(docEx.Document), 12)
+//@   proves "file-12-is-the-decoded-field": result1 == nil ==> result0 != nil && docRaw(result0, 12) === rawDocField(envPayload(docExDocument(envPayload(blob))), 12)
+//@   proves "file-12-is-the-record-field": result1 == nil ==> docRaw(result0, 12) === rawDocField(docPayload(docEx.Document), 12)
+//@   proves "file-12-round-trip": result1 == nil ==> result0 != nil && docRaw(result0, 12) === docRaw(docEx.Document, 12)
+//@   proves "record-field-13": rawDocField(docPayload(docEx.Document), 13) === docRaw(docEx.Document, 13)
+//@   proves "same-field-13-in-the-decoded-payload": result1 == nil ==> rawDocField(envPayload(docExDocument(envPayload(blob))), 13) === rawDocField(docPayload(docEx.Document), 13)
+//@   proves "file-13-is-the-decoded-field": result1 == nil ==> result0 != nil && docRaw(result0, 13) === rawDocField(envPayload(docExDocument(envPayload(blob))), 13)
+//@   proves "file-13-is-the-record-field": result1 == nil ==> docRaw(result0, 13) === rawDocField(docPayload(docEx.Document), 13)
+//@   proves "file-13-round-trip": result1 == nil ==> result0 != nil && docRaw(result0, 13) === docRaw(docEx.Document, 13)
+//@   ensures "same-raw-bytes-in-file-0": result1 == nil ==> result0 != nil && docRaw(result0, 0) === docRaw(docEx.Document, 0)
+//@   ensures "same-raw-bytes-in-file-1": result1 == nil ==> result0 != nil && docRaw(result0, 1) === docRaw(docEx.Document, 1)
+//@   ensures "same-raw-bytes-in-file-2": result1 == nil ==> result0 != nil && docRaw(result0, 2) === docRaw(docEx.Document, 2)
+//@   ensures "same-raw-bytes-in-file-3": result1 == nil ==> result0 != nil && docRaw(result0, 3) === docRaw(docEx.Document, 3)
+//@   ensures "same-raw-bytes-in-file-4": result1 == nil ==> result0 != nil && docRaw(result0, 4) === docRaw(docEx.Document, 4)
+//@   ensures "same-raw-bytes-in-file-5": result1 == nil ==> result0 != nil && docRaw(result0, 5) === docRaw(docEx.Document, 5)
+//@   ensures "same-raw-bytes-in-file-6": result1 == nil ==> result0 != nil && docRaw(result0, 6) === docRaw(docEx.Document, 6)
+//@   ensures "same-raw-bytes-in-file-7": result1 == nil ==> result0 != nil && docRaw(result0, 7) === docRaw(docEx.Document, 7)
+//@   ensures "same-raw-bytes-in-file-8": result1 == nil ==> result0 != nil && docRaw(result0, 8) === docRaw(docEx.Document, 8)
+//@   ensures "same-raw-bytes-in-file-9": result1 == nil ==> result0 != nil && docRaw(result0, 9) === docRaw(docEx.Document, 9)
+//@   ensures "same-raw-bytes-in-file-10": result1 == nil ==> result0 != nil && docRaw(result0, 10) === docRaw(docEx.Document, 10)
+//@   ensures "same-raw-bytes-in-file-11": result1 == nil ==> result0 != nil && docRaw(result0, 11) === docRaw(docEx.Document, 11)
+//@   ensures "same-raw-bytes-in-file-12": result1 == nil ==> result0 != nil && docRaw(result0, 12) === docRaw(docEx.Document, 12)
+//@   ensures "same-raw-bytes-in-file-13": result1 == nil ==> result0 != nil && docRaw(result0, 13) === docRaw(docEx.Document, 13)
+//@   assigns nothing
+//@   safety all
+
 // NewCardAccess is verified (DecodeSecurityInfos carries the ASN.1 boundary); NewSOD and NewEFDIR parse CMS / directory
 // structures and are trusted boundaries for the serialisation property: private copy of the bytes, (nil, nil) for an absent file.
 //@ func NewCardAccess
@@ -606,6 +701,10 @@ package document
 //@   props C15
 //@   requires docEx != nil
 //@   proves "envelope-of-document-and-evidence": result1 == nil ==> payload === cborDocEx(docBytes, caBytes) && result0 === cborEnv(magicDocEx(), 1, hashF(5, payload), payload)
+//@   proves "payload-recovered": result1 == nil ==> envOK(result0) && envPayload(result0) === payload
+//@   proves "document-part-of-the-record": result1 == nil ==> docExOK(payload) && docExDocument(payload) === docBytes
+//@   proves "document-part-recovered": result1 == nil ==> docExDocument(envPayload(result0)) === docBytes
+//@   ensures "document-part-is-the-documents-own-export": result1 == nil ==> docExDocument(envPayload(result0)) === cborEnv(magicRawDoc(), 1, hashF(5, docPayload(docEx.Document)), docPayload(docEx.Document))
 //@   ensures result1 != nil ==> result0 == nil
 //@   assigns nothing
 //@   safety all
@@ -615,6 +714,50 @@ package document
 //@   proves "envelope-decoded": result2 == nil ==> envOK(data) && env.Magic === envMagic(data) && env.Version == envVersion(data) && env.SHA256 === envSha(data) && env.Payload === envPayload(data)
 //@   proves "envelope-checked": result2 == nil ==> env.Magic === magicDocEx() && env.Version <= 1 && env.SHA256 === hashF(5, env.Payload)
 //@   proves "record-decoded": result2 == nil ==> docExOK(env.Payload) && raw.Document === docExDocument(env.Payload) && raw.ChipAuthEvidence === docExEvidence(env.Payload)
+//@   proves "inner-document-bytes": result2 == nil ==> raw.Document === docExDocument(envPayload(data))
+//@   proves "inner-document-payload": result2 == nil ==> envPayload(raw.Document) === envPayload(docExDocument(envPayload(data)))
+//@   proves "file-0-from-the-inner-record": result2 == nil ==> docRaw(result0, 0) === rawDocField(envPayload(raw.Document), 0)
+//@   proves "inner-record-field-0": result2 == nil ==> rawDocField(envPayload(raw.Document), 0) === rawDocField(envPayload(docExDocument(envPayload(data))), 0)
+//@   ensures "file-0-is-the-inner-payloads-raw-field": result2 == nil ==> docRaw(result0, 0) === rawDocField(envPayload(docExDocument(envPayload(data))), 0)
+//@   proves "file-1-from-the-inner-record": result2 == nil ==> docRaw(result0, 1) === rawDocField(envPayload(raw.Document), 1)
+//@   proves "inner-record-field-1": result2 == nil ==> rawDocField(envPayload(raw.Document), 1) === rawDocField(envPayload(docExDocument(envPayload(data))), 1)
+//@   ensures "file-1-is-the-inner-payloads-raw-field": result2 == nil ==> docRaw(result0, 1) === rawDocField(envPayload(docExDocument(envPayload(data))), 1)
+//@   proves "file-2-from-the-inner-record": result2 == nil ==> docRaw(result0, 2) === rawDocField(envPayload(raw.Document), 2)
+//@   proves "inner-record-field-2": result2 == nil ==> rawDocField(envPayload(raw.Document), 2) === rawDocField(envPayload(docExDocument(envPayload(data))), 2)
+//@   ensures "file-2-is-the-inner-payloads-raw-field": result2 == nil ==> docRaw(result0, 2) === rawDocField(envPayload(docExDocument(envPayload(data))), 2)
+//@   proves "file-3-from-the-inner-record": result2 == nil ==> docRaw(result0, 3) === rawDocField(envPayload(raw.Document), 3)
+//@   proves "inner-record-field-3": result2 == nil ==> rawDocField(envPayload(raw.Document), 3) === rawDocField(envPayload(docExDocument(envPayload(data))), 3)
+//@   ensures "file-3-is-the-inner-payloads-raw-field": result2 == nil ==> docRaw(result0, 3) === rawDocField(envPayload(docExDocument(envPayload(data))), 3)
+//@   proves "file-4-from-the-inner-record": result2 == nil ==> docRaw(result0, 4) === rawDocField(envPayload(raw.Document), 4)
+//@   proves "inner-record-field-4": result2 == nil ==> rawDocField(envPayload(raw.Document), 4) === rawDocField(envPayload(docExDocument(envPayload(data))), 4)
+//@   ensures "file-4-is-the-inner-payloads-raw-field": result2 == nil ==> docRaw(result0, 4) === rawDocField(envPayload(docExDocument(envPayload(data))), 4)
+//@   proves "file-5-from-the-inner-record": result2 == nil ==> docRaw(result0, 5) === rawDocField(envPayload(raw.Document), 5)
+//@   proves "inner-record-field-5": result2 == nil ==> rawDocField(envPayload(raw.Document), 5) === rawDocField(envPayload(docExDocument(envPayload(data))), 5)
+//@   ensures "file-5-is-the-inner-payloads-raw-field": result2 == nil ==> docRaw(result0, 5) === rawDocField(envPayload(docExDocument(envPayload(data))), 5)
+//@   proves "file-6-from-the-inner-record": result2 == nil ==> docRaw(result0, 6) === rawDocField(envPayload(raw.Document), 6)
+//@   proves "inner-record-field-6": result2 == nil ==> rawDocField(envPayload(raw.Document), 6) === rawDocField(envPayload(docExDocument(envPayload(data))), 6)
+//@   ensures "file-6-is-the-inner-payloads-raw-field": result2 == nil ==> docRaw(result0, 6) === rawDocField(envPayload(docExDocument(envPayload(data))), 6)
+//@   proves "file-7-from-the-inner-record": result2 == nil ==> docRaw(result0, 7) === rawDocField(envPayload(raw.Document), 7)
+//@   proves "inner-record-field-7": result2 == nil ==> rawDocField(envPayload(raw.Document), 7) === rawDocField(envPayload(docExDocument(envPayload(data))), 7)
+//@   ensures "file-7-is-the-inner-payloads-raw-field": result2 == nil ==> docRaw(result0, 7) === rawDocField(envPayload(docExDocument(envPayload(data))), 7)
+//@   proves "file-8-from-the-inner-record": result2 == nil ==> docRaw(result0, 8) === rawDocField(envPayload(raw.Document), 8)
+//@   proves "inner-record-field-8": result2 == nil ==> rawDocField(envPayload(raw.Document), 8) === rawDocField(envPayload(docExDocument(envPayload(data))), 8)
+//@   ensures "file-8-is-the-inner-payloads-raw-field": result2 == nil ==> docRaw(result0, 8) === rawDocField(envPayload(docExDocument(envPayload(data))), 8)
+//@   proves "file-9-from-the-inner-record": result2 == nil ==> docRaw(result0, 9) === rawDocField(envPayload(raw.Document), 9)
+//@   proves "inner-record-field-9": result2 == nil ==> rawDocField(envPayload(raw.Document), 9) === rawDocField(envPayload(docExDocument(envPayload(data))), 9)
+//@   ensures "file-9-is-the-inner-payloads-raw-field": result2 == nil ==> docRaw(result0, 9) === rawDocField(envPayload(docExDocument(envPayload(data))), 9)
+//@   proves "file-10-from-the-inner-record": result2 == nil ==> docRaw(result0, 10) === rawDocField(envPayload(raw.Document), 10)
+//@   proves "inner-record-field-10": result2 == nil ==> rawDocField(envPayload(raw.Document), 10) === rawDocField(envPayload(docExDocument(envPayload(data))), 10)
+//@   ensures "file-10-is-the-inner-payloads-raw-field": result2 == nil ==> docRaw(result0, 10) === rawDocField(envPayload(docExDocument(envPayload(data))), 10)
+//@   proves "file-11-from-the-inner-record": result2 == nil ==> docRaw(result0, 11) === rawDocField(envPayload(raw.Document), 11)
+//@   proves "inner-record-field-11": result2 == nil ==> rawDocField(envPayload(raw.Document), 11) === rawDocField(envPayload(docExDocument(envPayload(data))), 11)
+//@   ensures "file-11-is-the-inner-payloads-raw-field": result2 == nil ==> docRaw(result0, 11) === rawDocField(envPayload(docExDocument(envPayload(data))), 11)
+//@   proves "file-12-from-the-inner-record": result2 == nil ==> docRaw(result0, 12) === rawDocField(envPayload(raw.Document), 12)
+//@   proves "inner-record-field-12": result2 == nil ==> rawDocField(envPayload(raw.Document), 12) === rawDocField(envPayload(docExDocument(envPayload(data))), 12)
+//@   ensures "file-12-is-the-inner-payloads-raw-field": result2 == nil ==> docRaw(result0, 12) === rawDocField(envPayload(docExDocument(envPayload(data))), 12)
+//@   proves "file-13-from-the-inner-record": result2 == nil ==> docRaw(result0, 13) === rawDocField(envPayload(raw.Document), 13)
+//@   proves "inner-record-field-13": result2 == nil ==> rawDocField(envPayload(raw.Document), 13) === rawDocField(envPayload(docExDocument(envPayload(data))), 13)
+//@   ensures "file-13-is-the-inner-payloads-raw-field": result2 == nil ==> docRaw(result0, 13) === rawDocField(envPayload(docExDocument(envPayload(data))), 13)
 //@   ensures "objects-or-error": (result2 == nil) == (result0 != nil) && (result2 == nil) == (result1 != nil)
 //@   ensures "accepted-only-with-expected-magic-version-and-digest": result2 == nil ==> envOK(data) && envMagic(data) === magicDocEx() && envVersion(data) <= 1
 //@        && envSha(data) === hashF(5, envPayload(data)) && docExOK(envPayload(data))
